@@ -233,7 +233,7 @@ class ExprMixin:
             elif not isinstance(idx, int):
                 i = z3.If(i < 0, base.n + i, i)
             self.emit("safe.index", f"L{getattr(node, 'lineno', 0)}", st, z3.And(i >= 0, i < base.n))
-            st.pc = st.pc + (i >= 0, i < base.n)
+            self.assume_here(st, z3.And(i >= 0, i < base.n))
             return wrap(base.ety, base.a[i])
         if isinstance(base, str) and isinstance(idx, int):
             return base[idx]
@@ -427,7 +427,13 @@ class ExprMixin:
         return self.truthy(self.ev(node, st))
 
     def with_guard(self, guard, thunk, saved_pending):
-        v = thunk()
+        if guard is not True:
+            self.guard_stack.append(guard)
+        try:
+            v = thunk()
+        finally:
+            if guard is not True:
+                self.guard_stack.pop()
         if guard is not True:
             for i in range(saved_pending, len(self.pending)):
                 c, e, info = self.pending[i]
@@ -548,8 +554,8 @@ class ExprMixin:
         if isinstance(container, dict):
             return self.contains(list(container.keys()), x, st)
         if isinstance(container, SList):
-            i = z3.Int(fresh_name("in"))
-            return z3.Exists([i], z3.And(0 <= i, i < container.n, container.a[i] == to_term(x)))
+            from .spec import mem_term
+            return mem_term(container, x)
         if isinstance(container, SSet):
             return container.chi[to_term(x)]
         if isinstance(container, str) or (isinstance(container, SV) and container.ty is TStr):
@@ -577,3 +583,69 @@ class ExprMixin:
 
 class PathEnd(Exception):
     """The current path cannot continue (a definite failure was reported as an obligation)."""
+
+
+class CompMixin:
+    """comprehensions as specification-level map/filter (order preserved, membership <=> source and condition)"""
+
+    def ev_ListComp(self, node, st):
+        if len(node.generators) != 1 or node.generators[0].is_async:
+            raise Unsupported("comprehension with several generators")
+        gen = node.generators[0]
+        src = self.ev(gen.iter, st)
+        view = self.iter_view(src, st)
+        if view[0] == "concrete":
+            out = []
+            symbolic_cond = False
+            for x in view[1]:
+                sub = st.copy()
+                sub.pc = st.pc
+                self.assign_target(gen.target, x, sub)
+                keep = True
+                for c in gen.ifs:
+                    t = self.ev_truth(c, sub)
+                    if not isinstance(t, bool):
+                        symbolic_cond = True
+                        break
+                    keep = keep and t
+                if symbolic_cond:
+                    break
+                if keep:
+                    out.append(self.ev(node.elt, sub))
+            if not symbolic_cond:
+                return out
+            view = self.iter_view(self.as_slist(view[1]), st)
+        _, n, elem = view
+        i = z3.Int(fresh_name("ci"))
+        sub = st.copy()
+        self.assign_target(gen.target, elem(i), sub)
+        n_pending = len(self.pending)
+        conds = [self.ev_truth(c, sub) for c in gen.ifs]
+        val = self.ev(node.elt, sub)
+        if len(self.pending) != n_pending:
+            raise Unsupported("comprehension whose element or condition may raise")
+        if isinstance(val, (tuple, list, SList, SOpt)):
+            raise Unsupported("comprehension of non-scalar elements")
+        ety = type_of(val)
+        f_i = to_term(val)
+        conds = [c for c in conds if c is not True]
+        if any(c is False for c in conds):
+            return []
+        n = z3.If(n > 0, n, 0) if not z3.is_int_value(z3.simplify(n)) else z3.simplify(n)
+        if not conds:
+            return SList(ety, n, z3.Lambda([i], f_i))
+        c_i = z3.And(*conds) if len(conds) > 1 else conds[0]
+        r = fresh(TList(ety), "comp")
+        srcf = z3.Function(fresh_name("comp_src"), z3.IntSort(), z3.IntSort())
+        invf = z3.Function(fresh_name("comp_inv"), z3.IntSort(), z3.IntSort())
+        j, j2 = z3.Int(fresh_name("cj")), z3.Int(fresh_name("cj"))
+        f_at = lambda t: z3.substitute(f_i, (i, t))
+        c_at = lambda t: z3.substitute(c_i, (i, t))
+        st.pc = st.pc + (
+            r.n >= 0, r.n <= n,
+            z3.ForAll([j], z3.Implies(z3.And(0 <= j, j < r.n),
+                                      z3.And(0 <= srcf(j), srcf(j) < n, c_at(srcf(j)), r.a[j] == f_at(srcf(j)), invf(srcf(j)) == j))),
+            z3.ForAll([j, j2], z3.Implies(z3.And(0 <= j, j < j2, j2 < r.n), srcf(j) < srcf(j2))),
+            z3.ForAll([i], z3.Implies(z3.And(0 <= i, i < n, c_i), z3.And(0 <= invf(i), invf(i) < r.n, srcf(invf(i)) == i))),
+        )
+        return r
